@@ -31,6 +31,18 @@ def chance(r, p):
     return r.random() < p
 
 
+def fair(r, p):
+    """Like chance(), for rare branches: Hypothesis' random() favours 0.0 and other simple
+    values, which makes `random() < 0.05` true about a quarter of the time; the drawn bits
+    are mixed here so that the nominal probability holds under Hypothesis as well."""
+    b = r.getrandbits(32)
+    b = ((b + 0x9E3779B9) * 0x85EBCA6B) & 0xFFFFFFFF
+    b ^= b >> 13
+    b = (b * 0xC2B2AE35) & 0xFFFFFFFF
+    b ^= b >> 16
+    return b < p * 4294967296.0
+
+
 # ------------------------------------------------------------------ tag values
 
 INT_BOUNDS = [0, 1, -1, 127, 128, -128, -129, 255, 256, 32767, 32768, -32768, -32769, 65535, 65536,
